@@ -493,9 +493,13 @@ pub fn run_case(out: &mut Out, rng: &mut Rng, thorough: bool, case_no: u64) {
     let network = Network::Regtest;
     let thr = *rng.pick(&[1u32, 2, 2, 3, 4]);
     let fees = if rng.chance(1, 2) { Some(random_fees(rng)) } else { None };
+    let t2 = std::time::Instant::now();
     let world = World::new(network, rng);
+    out.count_n("time_us:world-new", t2.elapsed().as_micros() as u64);
     let mut st = Sync { case: Case { world, alive: vec![0], network, thr, mode: DiffMode::Small }, pending: vec![], undelivered: vec![], now: 2_000_000_000 };
+    let t3 = std::time::Instant::now();
     c::fresh_init(network, thr as u128, fees.clone());
+    out.count_n("time_us:fresh-init", t3.elapsed().as_micros() as u64);
     can::verif_hooks::set_manual_mode(true);
     out.begin_case(&format!("sync thr={}", thr));
     out.emit(&format!("c init regtest {} {}", thr, c::block_text(&st.case.world.nodes[0].block, network)), "-");
@@ -508,6 +512,8 @@ pub fn run_case(out: &mut Out, rng: &mut Rng, thorough: bool, case_no: u64) {
     let mut script: Vec<(String, GetSuccessorsReply)> = vec![];
     for _ in 0..steps {
         let r = rng.below(100);
+        let t0 = std::time::Instant::now();
+        let kind = if r < 40 { "hb" } else if r < 70 { "reply" } else if r < 76 { "upgrade" } else if r < 82 { "setcfg" } else if r < 90 { "call" } else if r < 94 { "sendtx" } else { "queries" };
         if r < 40 {
             let budget = if rng.chance(2, 3) { c::UNLIMITED } else { rng.range(0, 10) };
             emit_hb(out, &mut st, budget);
@@ -567,9 +573,12 @@ pub fn run_case(out: &mut Out, rng: &mut Rng, thorough: bool, case_no: u64) {
             crate::ledger::queries(out, rng, &st.case, false);
             out.emit("c q synced", &format!("{}", can::verif_hooks::is_synced() as u8));
         }
+        out.count_n(&format!("time_us:{}", kind), t0.elapsed().as_micros() as u64);
     }
     st.pending.clear();
+    let t1 = std::time::Instant::now();
     crate::ledger::queries(out, rng, &st.case, true);
+    out.count_n("time_us:final-queries", t1.elapsed().as_micros() as u64);
     can::verif_hooks::set_manual_mode(false);
     let _ = Flag::Enabled;
     out.nontrivial(fnv(fp.as_bytes()) ^ case_no.wrapping_mul(0x9E3779B97F4A7C15));
